@@ -526,4 +526,55 @@ theorem openLog_inv {log : FileStore.Log} (h : FileStore.LogInv log) : FileStore
 
 theorem openLog_log (log : FileStore.Log) : (openLog log).log = log := rfl
 
+/-! ### every store built by `restore` (C17's copy, recovery's output) satisfies `PrevOK` -/
+
+theorem restoreRecs_prev {D : Copy.Store} {rs : List Copy.IRec} {xs : List Copy.Rec}
+    (h : Copy.restoreRecs D rs = .ok xs) : ∀ x ∈ xs, x.prev = Copy.indexGet D x.oid := by
+  induction rs generalizing xs with
+  | nil => simp only [Copy.restoreRecs] at h; cases h; intro x hx; cases hx
+  | cons r rs ih =>
+    simp only [Copy.restoreRecs] at h
+    cases h1 : Copy.restoreRec D r with
+    | error e => simp [h1] at h
+    | ok x =>
+      cases h2 : Copy.restoreRecs D rs with
+      | error e => simp [h1, h2] at h
+      | ok ys =>
+        simp only [h1, h2] at h
+        cases h
+        intro y hy
+        rcases List.mem_cons.1 hy with rfl | hy
+        · obtain ⟨f1, _, f3⟩ := Proofs.Copy.restoreRec_fields h1
+          rw [f3, f1]
+        · exact ih h2 y hy
+
+theorem restoreTxn_prev {D D' : Copy.Store} {t : Copy.ITxn} {tid : Nat}
+    (h : Copy.restoreTxn D t tid = .ok D') (hp : PrevOK D) : PrevOK D' := by
+  unfold Copy.restoreTxn at h
+  cases h1 : Copy.restoreRecs D t.recs with
+  | error e => simp [h1] at h
+  | ok rs =>
+    simp only [h1] at h
+    cases h
+    exact ⟨restoreRecs_prev h1, hp⟩
+
+theorem copyLoop_prev {src : List Copy.ITxn} {ts : Option Nat} {D D' : Copy.Store}
+    (h : Copy.copyLoop src ts D = .ok D') (hp : PrevOK D) : PrevOK D' := by
+  induction src generalizing ts D with
+  | nil => simp only [Copy.copyLoop] at h; cases h; exact hp
+  | cons t rest ih =>
+    simp only [Copy.copyLoop] at h
+    cases h1 : Copy.restoreTxn D t (Copy.fixTid ts t.tid).1 with
+    | error e => simp [h1] at h
+    | ok D1 =>
+      simp only [h1] at h
+      exact ih h (restoreTxn_prev h1 hp)
+
+instance instDecidablePrevOK : (S : Copy.Store) → Decidable (PrevOK S)
+  | [] => isTrue trivial
+  | t :: older => by
+    unfold PrevOK
+    have := instDecidablePrevOK older
+    infer_instance
+
 end Proofs.Links
